@@ -77,3 +77,26 @@ def check(prop, tier, replay_path):
         return verdict.finish()
     finally:
         scr.cleanup()
+
+
+def check_all(prop, tier, replay_path):
+    """development helper: one rsim run judged for every raft-family property"""
+    seed = env_seed()
+    scr = Scratch("RAFT")
+    try:
+        binary = build_test_binary(scr, ["raft"], "internal/raft", "raft")
+        nb, tpb, steps = TIERS[tier]
+        results = rc.run_rsim_batches(scr, binary, seed, nb, tpb, steps)
+        out = 0
+        for p in sorted(rc.PROPS):
+            v = Verdict(p)
+            nv, nd = rc.judge(p, v, results, scr)
+            names = sorted({n for _, r in results for (_, _, n) in r["viol"] if n in rc.PROPS[p]})
+            log("== %s: %d violations %s; drifts %d; panics %d" % (p, nv, names, nd, sum(len(r["panics"]) for _, r in results)))
+            out |= 1 if v.violations else 0
+        for _, r in results:
+            for pn in r["panics"][:2]:
+                log("   panic:", pn[1][:160])
+        return out
+    finally:
+        scr.cleanup()
